@@ -170,14 +170,22 @@ func runC12(seed uint64, tier, dir, replay string) error {
 			if canonString(m) != canonString(ref) {
 				de = 0
 			}
+			if m == nil || isNilMsg(m) { // the parser was given something else than the frame
+				canonAll = false
+				emit(frames[i], kinds[i], "stream", 0, nil, 0, 0, 0, fmt.Sprintf("history %d, message %d of %d: a nil message was delivered", h, j, nf))
+				canonAll = true
+				continue
+			}
 			re, ok1 := marshalSafe(m)
 			rr, ok2 := marshalSafe(ref)
 			if ok1 != ok2 || !bytes.Equal(re, rr) {
 				ee = 0
 			}
+			lenv := 0
+			func() { defer func() { recover() }(); lenv = int(m.Len()) }()
 			if de == 0 || ee == 0 || j%16 == 0 {
 				canonAll = false
-				emit(frames[i], kinds[i], "stream", 0, re, int(m.Len()), de, ee, fmt.Sprintf("history %d, message %d of %d", h, j, nf))
+				emit(frames[i], kinds[i], "stream", 0, re, lenv, de, ee, fmt.Sprintf("history %d, message %d of %d", h, j, nf))
 				canonAll = true
 			}
 		}
